@@ -175,6 +175,8 @@ func (ord *Order) ValidateWithContext(ctx context.Context) error {
 			validation.Required,
 			cal.DateNotZero(),
 		),
+		validation.Field(&ord.OperationDate, cal.DateNotZero()),
+		validation.Field(&ord.ValueDate, cal.DateNotZero()),
 		validation.Field(&ord.Currency,
 			validation.Required,
 			currency.CanConvertInto(ord.ExchangeRates, r.GetCurrency()),
